@@ -2,6 +2,7 @@ package main
 
 import (
 	"fmt"
+	"io"
 	"math"
 	"runtime"
 	"sync"
@@ -292,12 +293,58 @@ func c02Stress(c *mon.Ctx, r *mon.Rand) {
 				}
 			}(e)
 		}
+		// a second requester of the gauges the creator goroutine makes the first
+		// use of (whoever comes first allocates; a slow allocation may be under
+		// way while the other one updates): the value it sets is what is delivered
+		chased := map[string]uint64{}
+		if creators {
+			wgU.Add(1)
+			go func(e int) {
+				defer wgU.Done()
+				for k := 0; k < 12; k++ {
+					v := float64(1000000 + 1000*e + k)
+					root.SubScope(fmt.Sprintf("s%d", k%5)).Gauge(fmt.Sprintf("new-e%d-%d", e, k)).Update(v)
+					chased[fmt.Sprintf("s%d.new-e%d-%d", k%5, e, k)] = math.Float64bits(v)
+					runtime.Gosched()
+				}
+			}(e)
+		}
+		// two goroutines that close their own subscope after every update and ask
+		// for it again at once: the last update is what the reporter ends on
+		reLast := make([]uint64, 2)
+		for w := 0; w < 2; w++ {
+			wgU.Add(1)
+			go func(w int) {
+				defer wgU.Done()
+				for k := 0; k < 15; k++ {
+					sc := root.SubScope(fmt.Sprintf("re%d", w))
+					v := float64(2000000 + 100000*w + 100*e + k)
+					sc.Gauge("g").Update(v)
+					reLast[w] = math.Float64bits(v)
+					if k < 14 {
+						sc.(io.Closer).Close()
+					}
+					runtime.Gosched()
+				}
+			}(w)
+		}
 		wgU.Wait()
 		atomic.StoreInt32(&stop, 1)
 		wgR.Wait()
 		tally.VerifReportPass(root)
 		atomic.StoreInt32(&stopCreate, 1)
 		wgC.Wait()
+		for name, want := range chased {
+			if a := rec.GetAgg(mon.IdentKey(name, nil)); a.LastBits != want {
+				c.Violation("stale-value", map[string]interface{}{"why": fmt.Sprintf("epoch %d: gauge %s, first used by two goroutines at about the same time (slow allocation) and updated by one of them: most recent delivered bits %#x, the update %#x", e, name, a.LastBits, want), "case": desc})
+				break
+			}
+		}
+		for w := range reLast {
+			if a := rec.GetAgg(mon.IdentKey(fmt.Sprintf("re%d.g", w), nil)); a.LastBits != reLast[w] {
+				c.Violation("stale-value", map[string]interface{}{"why": fmt.Sprintf("epoch %d: gauge re%d.g of a subscope that is closed after every update and requested again: most recent delivered bits %#x, last update %#x", e, w, a.LastBits, reLast[w]), "case": desc})
+			}
+		}
 		for i := 0; i < G; i++ {
 			if updates[i] == 0 {
 				continue
